@@ -23,9 +23,12 @@ import (
 
 // metric relabel rule family with an independent evaluator
 type c14Rule struct {
-	Action string   `json:"action"` // keep | drop | labeldrop
+	Action string   `json:"action"` // keep | drop | labeldrop | replace
 	Source []string `json:"source,omitempty"`
 	Regex  string   `json:"regex"`
+	// replace: the label written and the replacement template ($1, $2)
+	Target      string `json:"target,omitempty"`
+	Replacement string `json:"replacement,omitempty"`
 }
 
 type c14Sample struct {
@@ -101,6 +104,9 @@ func (c *c14Case) config() string {
 				if len(r.Source) > 0 {
 					fmt.Fprintf(&b, "    source_labels: [%s]\n", strings.Join(r.Source, ", "))
 				}
+				if r.Action == "replace" {
+					fmt.Fprintf(&b, "    target_label: %s\n    replacement: '%s'\n", r.Target, r.Replacement)
+				}
 			}
 		}
 	}
@@ -125,6 +131,21 @@ func kept(rules []c14Rule, s c14Sample) bool {
 				if re.MatchString(k) {
 					delete(ls, k)
 				}
+			}
+		case "replace":
+			var vals []string
+			for _, sl := range r.Source {
+				vals = append(vals, ls[sl])
+			}
+			val := strings.Join(vals, ";")
+			m := re.FindStringSubmatchIndex(val)
+			if m == nil {
+				continue
+			}
+			if res := string(re.ExpandString(nil, r.Replacement, val, m)); res == "" {
+				delete(ls, r.Target)
+			} else {
+				ls[r.Target] = res
 			}
 		default:
 			var vals []string
@@ -182,8 +203,8 @@ func renderScrape(sc *c14Scrape) []byte {
 }
 
 func recC14() *vkit.Recorder {
-	r := vkit.Rec("C14", "exploration", "rapid-generated sequences of scrapes (payloads built from a sample list, so per-metric counts are known by construction; duplicates; comment/blank noise lines; failures) over 1-3 targets in 1-2 jobs whose metric_relabel_configs come from a keep/drop/labeldrop family with an independent evaluator in the harness; after every scrape the real sidecar's /targets/status/, /runtimeinfo/ and /samples/ (with and without per-metric detail) are compared with a model: totals before/after rules, per-metric sums, series = floor(mean of last <=3 successful scrapes), totalSeries = last successful total, shard load sums, head-series floor; in one case of eight a quarter of the scrapes carry bulk families of 300-3000 samples (payloads of up to several hundred KiB, i.e. several blocks of the stream parser, with the same metric names in many blocks); non-trivial = sequence with >=4 successes on one target (window slides), a failure between successes, rules that drop some but not all samples, or a payload of more than two parser blocks; distinct = digest of the case")
-	r.Assume("payload lines are well-formed samples or comment/blank lines (what the statistics parser makes of malformed lines is not part of the statement); relabel rule family: keep/drop on anchored regexes over __name__ and sample labels, labeldrop")
+	r := vkit.Rec("C14", "exploration", "rapid-generated sequences of scrapes (payloads built from a sample list, so per-metric counts are known by construction; duplicates; comment/blank noise lines; failures) over 1-3 targets in 1-2 jobs whose metric_relabel_configs come from a keep/drop/labeldrop/replace family (label rewrites may be chained and feed later keep/drop rules) with an independent evaluator in the harness; after every scrape the real sidecar's /targets/status/, /runtimeinfo/ and /samples/ (with and without per-metric detail) are compared with a model: totals before/after rules, per-metric sums, series = floor(mean of last <=3 successful scrapes), totalSeries = last successful total, shard load sums, head-series floor; in one case of eight a quarter of the scrapes carry bulk families of 300-3000 samples (payloads of up to several hundred KiB, i.e. several blocks of the stream parser, with the same metric names in many blocks); non-trivial = sequence with >=4 successes on one target (window slides), a failure between successes, rules that drop some but not all samples, or a payload of more than two parser blocks; distinct = digest of the case")
+	r.Assume("payload lines are well-formed samples or comment/blank lines (what the statistics parser makes of malformed lines is not part of the statement); relabel rule family: keep/drop on anchored regexes over __name__ and sample labels, labeldrop, replace with $1/$2 templates")
 	return r
 }
 
@@ -419,10 +440,32 @@ func genC14(t *rapid.T) *c14Case {
 	metrics := []string{"a_x", "a_y", "b_x", "c_z"}
 	for j := 0; j < nj; j++ {
 		var rules []c14Rule
-		nr := rapid.IntRange(0, 3).Draw(t, fmt.Sprintf("j%d-nRules", j))
+		nr := rapid.IntRange(0, 4).Draw(t, fmt.Sprintf("j%d-nRules", j))
+		if rapid.IntRange(0, 4).Draw(t, fmt.Sprintf("j%d-chain", j)) == 0 {
+			// a chain of rewrites in front of a filter: zone -> tier, (tier, id) -> owner, keep / drop on owner
+			rules = append(rules,
+				c14Rule{Action: "replace", Source: []string{"zone"}, Regex: "z(.)", Target: "tier", Replacement: "t$1"},
+				c14Rule{Action: "replace", Source: []string{"tier", "id"}, Regex: "(.+);(.+)", Target: "owner", Replacement: "$1-$2"},
+				c14Rule{Action: rapid.SampledFrom([]string{"keep", "drop"}).Draw(t, fmt.Sprintf("j%d-chainAct", j)), Source: []string{"owner"},
+					Regex: rapid.SampledFrom([]string{"t1-[0-3]", "t.-1", "t2.*", "t1-.*|t3-0", ""}).Draw(t, fmt.Sprintf("j%d-chainRe", j))})
+			nr = rapid.IntRange(0, 1).Draw(t, fmt.Sprintf("j%d-afterChain", j))
+		}
 		for r := 0; r < nr; r++ {
 			l := fmt.Sprintf("j%d-r%d", j, r)
-			switch pick(t, l+"-kind", 4, 4, 3, 2, 1) {
+			switch pick(t, l+"-kind", 4, 4, 3, 2, 1, 5) {
+			case 5:
+				// label rewrites, possibly chained (zone -> tier, (tier, id) -> owner), read by later keep / drop rules
+				switch rapid.IntRange(0, 3).Draw(t, l+"-rw") {
+				case 0:
+					rules = append(rules, c14Rule{Action: "replace", Source: []string{"zone"}, Regex: "z(.)", Target: "tier", Replacement: "t$1"})
+				case 1:
+					rules = append(rules, c14Rule{Action: "replace", Source: []string{"tier", "id"}, Regex: "(.+);(.+)", Target: "owner", Replacement: "$1-$2"})
+				case 2:
+					rules = append(rules, c14Rule{Action: "replace", Source: []string{"__name__"}, Regex: "(a|b)_.*", Target: "tier", Replacement: "fam-$1"})
+				default:
+					rules = append(rules, c14Rule{Action: rapid.SampledFrom([]string{"keep", "drop"}).Draw(t, l+"-act"), Source: []string{rapid.SampledFrom([]string{"owner", "tier"}).Draw(t, l+"-src")},
+						Regex: rapid.SampledFrom([]string{"t1-[0-3]", "t1", "t.-1", "t2.*", "fam-a", "", "fam-.*|t3"}).Draw(t, l+"-re")})
+				}
 			case 0:
 				rules = append(rules, c14Rule{Action: rapid.SampledFrom([]string{"keep", "drop"}).Draw(t, l+"-act"), Source: []string{"__name__"},
 					Regex: rapid.SampledFrom([]string{"a_.*", "b_x|c_z", "a_x", ".*_x", "nomatch", "(a|b)_.+"}).Draw(t, l+"-re")})
